@@ -1353,13 +1353,15 @@ def dec_header_ops(sx):
 
 
 # ------------------------------------------------------------------ LineReader / from_line_reader
-def impl_line_reader(lines, mode, reads, last_eol=True):
+def impl_line_reader(lines, mode, reads, last_eol=True, pre=0):
     """the lines joined with LF in an io.StringIO, LineReader on it, MafHeader.from_line_reader"""
     ensure_repo()
     from maflib.header import MafHeader
     from maflib.util import LineReader
     text = "\n".join(lines) + ("\n" if (lines and last_eol) else "")
     lr = LineReader(io.StringIO(text))
+    for _ in range(pre):
+        lr.read_line()              # lines consumed before the header is read: its lines are numbered from here
     with LogCapture() as cap:
         try:
             h = MafHeader.from_line_reader(lr, validation_stringency=py_mode(mode))
@@ -1389,7 +1391,7 @@ def impl_line_reader(lines, mode, reads, last_eol=True):
     return out
 
 
-def wire_line_reader(lines, mode, reads, last_eol=True):
+def wire_line_reader(lines, mode, reads, last_eol=True, pre=0):
     ensure_repo()
     reg = [[S(v), S(a), B(nr), ([[]] if nr else [])] for (v, a, nr, _) in registry()]
     raw = [l + "\n" for l in lines]
@@ -1397,7 +1399,7 @@ def wire_line_reader(lines, mode, reads, last_eol=True):
         raw[-1] = lines[-1]
         if raw[-1] == "":
             raw = raw[:-1]          # "a\n" + "" : the handle ends after the last terminator
-    return [7, m_mode(mode), [S(l) for l in raw], reg, reads]
+    return [7, m_mode(mode), [S(l) for l in raw], reg, reads, pre]
 
 
 def dec_line_reader(sx):
